@@ -491,6 +491,7 @@ func (c *EvalCtx) object(obj types.Object) tv {
 			}
 			ex.sentinels[name] = t
 			ex.facts = append(ex.facts, ex.p.Gt(t, ex.p.Int(0)))
+			ex.sentinelWrapsNothing(t)
 			return tv{t, o.Type()}
 		}
 	}
@@ -1698,9 +1699,16 @@ func (ex *Exec) isErr(e, s *Term) *Term {
 	if e.Op == "int" && e.Int.Sign() == 0 {
 		return p.False()
 	}
+	if e.Op == "const" && strings.HasPrefix(e.Name, "err:") {
+		// a package-level sentinel (errors.New / fmt.Errorf without %w, assumed) wraps nothing: it answers to itself only
+		ex.assumptions["package-level error sentinels wrap nothing (errors.Is(sentinel, x) holds for x == sentinel only)"] = true
+		return p.And(p.Not(p.Eq(e, p.Int(0))), p.Eq(e, s))
+	}
 	r := p.App(f, e, s)
 	k := fmt.Sprintf("isErr-axioms:%d:%d", e.id, s.id)
-	if !ex.assumptions[k] {
+	// (inside the body of a defined spec function the operands are bound variables: the instance facts are added where
+	// the function is applied to real terms, not here)
+	if !ex.assumptions[k] && !hasBound(e) && !hasBound(s) {
 		ex.facts = append(ex.facts, p.Implies(p.Eq(e, p.Int(0)), p.Not(r)), p.Implies(p.And(p.Eq(e, s), p.Not(p.Eq(e, p.Int(0)))), r))
 	}
 	return r
@@ -1923,4 +1931,17 @@ func (ex *Exec) hintStructRegions(t types.Type) {
 	if _, known := ex.regionSorts[name]; !known {
 		ex.regionSorts[name] = ex.p.ArraySort(IntSort, ex.tm.SortOf(t))
 	}
+}
+
+// hasBound: the term mentions a bound variable.
+func hasBound(t *Term) bool {
+	if t.Op == "bound" {
+		return true
+	}
+	for _, a := range t.Args {
+		if hasBound(a) {
+			return true
+		}
+	}
+	return false
 }
